@@ -12,7 +12,8 @@ EXPLANATION = (
     "two-operator chain groups correctly iff its cell is right.  Literal clauses decided: the "
     "decimal-literal conversion has no error exit and yields INTEGER/LONG/DOUBLE; hex/octal yield "
     "INTEGER/LONG or Overflow; fraction literals yield SINGLE or (with #) DOUBLE; negating a "
-    "literal is guarded at MIN_INTEGER / MIN_LONG.")
+    "literal is guarded at MIN_INTEGER / MIN_LONG, and (R5, interval dataflow) every integer literal "
+    "built by arithmetic in the parser stays inside the range of its literal type.")
 NOT_DECIDED = [
     "that the rotation algorithm groups chains of three or more operators correctly",
     "the numeric thresholds and the exact value a literal denotes (value-level)",
@@ -210,6 +211,9 @@ def run(ctx):
     r1_binary_flip(ctx, eng)
     r2_unary_flip(ctx, eng)
     r3_negative_literal_guard(ctx)
+    from . import c06
+    c06.r3_integer_constructors(ctx, "C10.R5", crates=("rusty_parser",),
+                                adt="rusty_parser::expr::types::Expression", floor=2)
     r4_decimal_total(ctx, eng)
     if eng.imprecise:
         ctx.notes.append("abstract interpreter imprecision: %s" % eng.imprecise[:5])
